@@ -85,6 +85,20 @@ def build_jobs(ctx, rng):
             k = len(svs) if ctx.thorough else min(len(svs), 1 if two_d else 3)
             for i in (sorted(rng.choice(len(svs), k, replace=False)) if svs else []):
                 add(name, svs[int(i)], two_d=two_d, tag='.var')
+    # A3. every 1-D method on other data kinds: a 1e6 offset with little noise, and data scaled by 1e-6 / 1e6 (the fall-back
+    # implementations must be as accurate as the accelerated ones, not only algebraically equal)
+    reg = M.registry(False)
+    for name, e in sorted(reg.items()):
+        if name in ('custom_bc', 'optimize_extended_range', 'collab_pls', 'adaptive_minmax', 'interp_pts'):
+            continue
+        kw = M.filter_kwargs(e, M.call_kwargs(name, False))
+        if 'max_iter' in e['params']:
+            kw['max_iter'] = 3
+        if name == 'beads':
+            kw['tol'] = 0
+        kinds = ('offset', 'tiny', 'huge')
+        for kind in (kinds if ctx.thorough else (kinds[int(rng.integers(0, 3))], 'offset')[:2 if rng.random() < 0.5 else 1]):
+            add(name, kw, data=kind, tag='.' + kind)
     for host in WHIT_STD + ['iasls', 'aspls', 'drpls']:
         for d in (1, 2, 3):
             if host in ('iasls', 'drpls') and d < 2:
